@@ -850,17 +850,54 @@ def filling_emplacers(F, R):
         R.count("functions_analysed")
         em = [(bb, t) for bb, t in body.calls() if (t["call"].get("res") or {}).get("def", "").endswith("Empty as flatty_base::emplacer::Emplacer<flatty_containers::%s::%s>>::emplace_unchecked" % (
             mod, "FlatVec<T, L>" if mod == "vec" else "FlatString<L>"))]
-        ok = len(em) == 1 and ab(canon(body.expr_of_call(em[0][1], 0, em[0][0])[3][1])) == "$bytes"
         fills = [bb for bb, t in body.calls() if t["call"].get("def", "").split("::")[-1] in ("push", "push_str", "extend_until_full", "push_slice", "extend")]
+        all_em = list(em)
+        repair_em = []
+        g = [(x, n, tt, ff) for x, n, tt, ff in switch_facts(body) if n == ("Lt", cap_c, need_c)] if known_len else []
+        if known_len and len(g) == 1:
+            # Empty emplacements on the refusal edge (making an invalid target empty) are not "the reset before filling"
+            refusal = body.reachable_from(g[0][2], avoid=[g[0][3]])
+            repair_em = [c for c in em if c[0] in refusal]
+            em = [c for c in em if c[0] not in refusal]
+        ok = len(em) == 1 and ab(canon(body.expr_of_call(em[0][1], 0, em[0][0])[3][1])) == "$bytes"
         ok = ok and fills and all(body.dominates(em[0][0], f) for f in fills)
         R.ob("E3.empty-first", fn, "reset", bool(ok), "%s: the target is reset to empty (Empty emplacer on the same bytes) before anything is appended" % fn, where=b["span"])
         rs = [r for _, r in ret_stores(body)]
         if known_len:
-            g = [(x, n, tt, ff) for x, n, tt, ff in switch_facts(body) if n == ("Lt", cap_c, need_c)]
             okr = len(g) == 1 and em and body.edge_dominates((g[0][0], g[0][3]), em[0][0]) and \
                 [r for _, r in ret_stores(body, body.reachable_from(g[0][2], avoid=[g[0][3]]))] == ["Err{Error{InsufficientSize{}, 0}}"]
-            R.ob("R2.check-before-reset", fn, "room", bool(okr),
-                 "%s: `capacity < needed` (capacity of the view of the same bytes) is refused with InsufficientSize before the target is touched" % fn, where=b["span"])
+            # on the refusal edge the target is written only to make it valid: at most one Empty emplacement of the same bytes, and only
+            # on the is_err edge of validate_unchecked(bytes) of the container type (a valid target stays untouched)
+            cond_ok = True
+            why_r = ""
+            if okr:
+                stores_refusal = [bb_ for bb_, t_ in body.calls() if bb_ in refusal and t_["call"].get("def", "").split("::")[-1] in (
+                    "push", "push_str", "extend_until_full", "push_slice", "extend", "write", "copy_from_slice", "emplace", "clear", "truncate")]
+                if stores_refusal:
+                    cond_ok, why_r = False, " -- the refusal path modifies the target"
+                if len(repair_em) > 1:
+                    cond_ok, why_r = False, " -- more than one reset on the refusal path"
+                for (ebb, et) in repair_em:
+                    guarded = False
+                    for sb2, st2 in body.switches():
+                        c2 = ab(canon(body.expr_of_operand(st2["switch"])))
+                        if re.fullmatch(r"core::result::Result::<T, E>::is_err\(<fc::(vec::FlatVec<T, L>|string::FlatString<L>) as FlatValidate>::validate_unchecked\(\$bytes\)\)", c2) \
+                                and body.edge_dominates((sb2, st2["otherwise"]), ebb):
+                            guarded = True
+                        if re.fullmatch(r"core::result::Result::<T, E>::is_ok\(<fc::(vec::FlatVec<T, L>|string::FlatString<L>) as FlatValidate>::validate_unchecked\(\$bytes\)\)", c2):
+                            ft2 = [b_ for v, b_ in st2["targets"] if int(v) == 0]
+                            if ft2 and body.edge_dominates((sb2, ft2[0]), ebb):
+                                guarded = True
+                    if not guarded or ab(canon(body.expr_of_call(et, 0, ebb)[3][1])) != "$bytes":
+                        cond_ok, why_r = False, " -- the reset on the refusal path is not limited to a target that fails validation"
+            R.ob("R2.check-before-reset", fn, "room", bool(okr) and cond_ok,
+                 "%s: `capacity < needed` (capacity of the view of the same bytes) is refused with InsufficientSize before the target is touched; on that "
+                 "path a target is written only when it is not a valid value (then it is made empty)%s" % (fn, why_r), where=b["span"])
+            if R.pid in ("C18", "C14"):
+                R.ob("R2.refusal-leaves-valid", fn, "invalid-target-reset", bool(okr) and cond_ok and len(repair_em) == 1,
+                     "%s: when the content is refused and the bytes are no valid container (tail of a composite being re-initialised: new tag over old "
+                     "bytes) they are made an empty one, so that the composite stays valid (a stale length over a small capacity would let the next safe "
+                     "push write outside the slice)" % fn, where=b["span"])
         errs = [r for r in rs if r.startswith("Err{")]
         cl = [ab(r) for c in closures_of(F, b) for r in the_return(Body(c))]
         okk = all(e == "Err{Error{InsufficientSize{}, 0}}" for e in errs) and all(c == "Error{InsufficientSize{}, 0}" for c in cl) and (errs or cl)
